@@ -362,6 +362,101 @@ func C12(c *fw.Ctx) {
 		frontier = next
 	}
 	c.R.Traces = c.R.Transitions
+	objNames(c, bound)
+}
+
+// objNames: objects whose property names are easily confused with each other (leading zeros, the same
+// number in two digit scripts, case, canonically equivalent spellings, one a prefix of the other): every
+// ordered pair of a pool of sixteen and every ordered triple of a pool of eight, as literal and as
+// assignments; printed, listed, read, one property removed, listed again, re-added, listed again -- under
+// every iteration-order schedule within the bound.
+func objNames(c *fw.Ctx, bound int) {
+	pool := []string{"k1", "k01", "k001", "k\u09e7", "k10", "k9", "k1a", "K1", "k_1", "\u0995\u09e7", "\u09951", "\u0995\u09e6\u09e7", "a", "aa", "k\u09DF", "k\u09AF\u09BC"}
+	c.Bound("confusable_names", len(pool))
+	id, num := model.Id, model.Num
+	runNames := func(names []string, viaAssign bool) {
+		var vals []*model.N
+		for i := range names {
+			vals = append(vals, num(float64(i+1)))
+		}
+		var prog []*model.N
+		if viaAssign {
+			prog = append(prog, model.Var("o", model.Obj(nil, nil)))
+			for i, n := range names {
+				prog = append(prog, model.ExprS(model.PAsg(id("o"), n, vals[i])))
+			}
+		} else {
+			prog = append(prog, model.Var("o", model.Obj(names, vals)))
+		}
+		prog = append(prog, model.Print(id("o")))
+		prog = append(prog, objListing("o")...)
+		for _, n := range names {
+			prog = append(prog, model.Print(model.Prop(id("o"), n)))
+		}
+		prog = append(prog, model.ExprS(model.CallN(model.BiDelete, id("o"), model.Str(names[0]))), model.Print(id("o")))
+		prog = append(prog, objListing("o")...)
+		prog = append(prog, model.ExprS(model.PAsg(id("o"), names[0], num(9))), model.Print(id("o")))
+		prog = append(prog, objListing("o")...)
+		prog = parenAll(prog)
+		src := model.Render(prog)
+		res := (&model.Machine{}).Run(prog)
+		if res.Unspec != "" || res.Diverged || res.Err != nil {
+			c.Skip("unspecified: " + res.Unspec)
+			return
+		}
+		n, _ := exploreChoices(c, func(prefix []int) h.Outcome {
+			return h.RunFile(src, h.Opts{Prefix: prefix, Fuel: fuelFor(res)})
+		}, bound, func(prefix []int, o h.Outcome) {
+			c.Eval(fmt.Sprint(prefix)+src, true)
+			c.Outcome(o.Stdout)
+			base := fw.Replay{Mode: "file", Program: src, Choices: append([]int{}, prefix...), CLI: len(prefix) == 0, InStdout: o.Stdout, InStderr: o.Stderr, InStatus: o.Status}
+			if abnormal(c, o, "file", src, base) {
+				return
+			}
+			why := ""
+			if o.Stderr != "" || o.Status != 0 {
+				why = fmt.Sprintf("status %d stderr %q", o.Status, trunc(o.Stderr, 100))
+			} else {
+				why = compareObjOutput(res.Stdout(), o.Stdout)
+			}
+			if why != "" {
+				r := base
+				r.Sig = "C12|confusable-names"
+				if len(prefix) > 0 {
+					r.Sig += "|scheduled"
+				}
+				r.What = "an object whose property names are easily confused: printing, listing (pairing and completeness), reading, removing"
+				r.Expected, r.Observed = res.Stdout(), o.Stdout+" ("+why+")"+fmt.Sprintf(" schedule %v", prefix)
+				c.Violate(r)
+			}
+		})
+		c.Add("schedules", int64(n))
+		c.R.States++
+		c.R.Transitions += int64(n)
+	}
+	for i, a := range pool {
+		for j, b := range pool {
+			if i == j || !c.Mine() {
+				continue
+			}
+			runNames([]string{a, b}, false)
+			runNames([]string{a, b}, true)
+		}
+	}
+	small := pool[:8]
+	if c.Quick() {
+		small = pool[:5]
+	}
+	for i, a := range small {
+		for j, b := range small {
+			for k, d := range small {
+				if i == j || j == k || i == k || !c.Mine() {
+					continue
+				}
+				runNames([]string{a, b, d}, false)
+			}
+		}
+	}
 }
 
 func objHist(hist []int, ops []objOp) string {
